@@ -415,6 +415,7 @@ func c01List(c *Ctx, r *Report, a *Anchors) {
 	fn := a.list
 	loops := loopsOf(fn)
 	n := 0
+	perArm := map[string]int{}
 	for _, l := range loops {
 		// result-building loop: contains append to []interface{}
 		var appends []*ssa.Call
@@ -439,7 +440,11 @@ func c01List(c *Ctx, r *Report, a *Anchors) {
 		}
 		n++
 		arm := armOf(l.head)
-		key := fmt.Sprintf("%s: result loop #%d (%s)", fnName(fn), n, arm)
+		perArm[arm]++
+		key := fmt.Sprintf("%s: result loop (%s)", fnName(fn), arm)
+		if perArm[arm] > 1 {
+			key += fmt.Sprintf(" #%d", perArm[arm])
+		}
 		pos := appends[0].Pos()
 		// exactly one append, dominating every latch
 		one := len(appends) == 1
@@ -491,7 +496,7 @@ func c01List(c *Ctx, r *Report, a *Anchors) {
 			r.check("C01.LIST", key+": element is read at the induction value", pos, okUse && uses > 0, fmt.Sprintf("%d element accesses; each must use the loop's induction value", uses))
 		}
 	}
-	r.floor("C01.LIST", "result-building loops in the list resolver", n, 11)
+	r.floor("C01.LIST", "result-building loops in the list resolver", n, 3)
 }
 
 // armOf describes the type-switch arm a block belongs to.
